@@ -647,15 +647,20 @@ impl FileStateMachine {
                                         .map(|d| d.as_secs())
                                         .unwrap_or(0);
 
-                                    if remaining > 0 {
-                                        lease.register(key.clone(), remaining);
-                                        debug!(
-                                            "Replayed INSERT with TTL: key={:?}, remaining={}s",
-                                            key, remaining
-                                        );
-                                    }
+                                    // Less than a second left still is a TTL: never restore
+                                    // the key as permanent.
+                                    let remaining = remaining.max(1);
+                                    lease.register(key.clone(), remaining);
+                                    debug!(
+                                        "Replayed INSERT with TTL: key={:?}, remaining={}s",
+                                        key, remaining
+                                    );
                                 }
                             } else {
+                                // A write without TTL cancels the TTL of the value it replaces.
+                                if let Some(ref lease) = self.lease {
+                                    lease.unregister(&key);
+                                }
                                 debug!("Replayed INSERT: key={:?}", key);
                             }
 
@@ -679,6 +684,9 @@ impl FileStateMachine {
                         // the fix. Apply new_value unconditionally as best-effort.
                         if let Some(new_value) = value {
                             data.insert(key.clone(), (new_value, term));
+                            if let Some(ref lease) = self.lease {
+                                lease.unregister(&key);
+                            }
                             applied_count += 1;
                             debug!("Replayed legacy CAS: key={:?}", key);
                         } else {
@@ -1202,6 +1210,8 @@ impl StateMachine for FileStateMachine {
                                 .as_ref()
                                 .expect("lease always initialized by NodeBuilder");
                             lease.register(key.clone(), *ttl);
+                        } else if let Some(ref lease) = self.lease {
+                            lease.unregister(key);
                         }
                         results.push(ApplyResult::success(entry.index));
                     }
@@ -1230,6 +1240,9 @@ impl StateMachine for FileStateMachine {
                         });
                         if cas_success {
                             data.insert(key.clone(), (new_value.clone(), entry.term));
+                            if let Some(ref lease) = self.lease {
+                                lease.unregister(key);
+                            }
                         }
                     }
                 }
